@@ -1151,6 +1151,72 @@ def write_gen_footprints(derived, rich=()):
     return len(rows)
 
 
+def foot_model_line(c, t, flags):
+    P = ["FOOT", str(t), str(len(c["vars"]))]
+    for v, x in enumerate(c["vars"]):
+        P += [str(x["tsf"]), str(len(x["coeff"]))] + [str(int(f)) for f in flags[v]] + [str(q) for q in x["coeff"]]
+    P += [str(len(c["biases"]))]
+    for x in c["biases"]:
+        P += [str(x["tsf"]), str(len(x["vars"]))] + [str(v) for v in x["vars"]] + [str(x["k"])] + [str(q) for q in x["centers"]]
+    P += ["1" if c["use_script"] else "0", "1" if c["after"] else "0", str(len(c["script"]))]
+    for v, f in c["script"]:
+        P += [str(v), str(f)]
+    return " ".join(P)
+
+
+def parse_foot(line):
+    out = {}
+    for part in line.split(" ; "):
+        kind, _, rest = part.strip().partition(" ")
+        fps = []
+        for item in rest.split(" | "):
+            item = item.strip()
+            if not item:
+                continue
+            R = [t for t in item.split("R=")[1].split(" W=")[0].split(",") if t]
+            W = [t for t in item.split(" W=")[1].split(",") if t]
+            fps.append((R, W))
+        out[kind] = fps
+    return out
+
+
+def fp_indep(a, b):
+    return not (set(a[1]) & set(b[1])) and not (set(a[1]) & set(b[0])) and not (set(b[1]) & set(a[0]))
+
+
+def footprint_oracle(run, model, derived, rich):
+    """the comparisons of the regenerated-table theorems, redone in python so that a failure names the probe, the item and the
+    locations (the probe scenario is the concrete failing input)"""
+    ok = [x for x in derived if x[1] is not None]
+    rcm, mout, em = V.run_lines(model, [foot_model_line(c, t, flags) for c, t, flags, _, _, _ in ok])
+    for k, (c, t, flags, comp, coll, bias) in enumerate(ok):
+        m = parse_foot(mout[k]) if k < len(mout) else {}
+        for kind, got in (("COMP", comp), ("COLLECT", coll), ("BIAS", bias)):
+            want = m.get(kind, [])
+            bad = None
+            if len(got) != len(want):
+                bad = "%d items derived, %d in the model" % (len(got), len(want))
+            else:
+                for i, (g, w_) in enumerate(zip(got, want)):
+                    if set(g[0]) != set(w_[0]) or set(g[1]) != set(w_[1]):
+                        bad = "item %d reads %s writes %s in the implementation; the model's table has reads %s writes %s" % (
+                            i, sorted(g[0]), sorted(g[1]), sorted(w_[0]), sorted(w_[1]))
+                        break
+            if bad:
+                run.violation("footprints:derived-differs-from-model:" + kind.lower(),
+                              "footprints derived from the binary (item run alone / one location perturbed at a time) differ from the model's footprint table, %s loop: %s; config:\n%s" % (
+                                  kind.lower(), bad, "\n".join(tcase_config(c))), {"kind": "footprint", "scenario": probe_scenario(c)})
+    for c, comp, coll, bias, nrep in rich:
+        for kind, l in (("comp", comp), ("bias", bias), ("collect", coll)):
+            for i in range(len(l)):
+                for j in range(i + 1, len(l)):
+                    if not fp_indep(l[i], l[j]):
+                        run.violation("footprints:items-not-independent:" + kind,
+                                      "derived footprints of two items of the %s loop overlap: item %d reads %s writes %s, item %d reads %s writes %s; config:\n%s" % (
+                                          kind, i, l[i][0], l[i][1], j, l[j][0], l[j][1], "\n".join(rcase_config(c))),
+                                      {"kind": "footprint", "scenario": rich_probe_scenario(c, "P%d" % c["id"])})
+
+
 def probe_cases(r_cases):
     return witness_tcases() + load_corpus() + [c for c in r_cases if not has_error_step(c)][:8]
 
@@ -1228,7 +1294,7 @@ def check(run):
     gen = [gen_tcase(r, k) for k in range(200 if quick else 4000)]
     rc = [gen_rcase(r, k) for k in range(50 if quick else 1200)]
     # footprints derived from the rebuilt binary -> coq/Gen/GenFootC12.v, BEFORE the proofs are checked
-    derived = []
+    derived, rich = [], []
     try:
         sim0 = V.build_prog("c12sim", PROGS["c12sim"])
         derived = derive_footprints(sim0, probe_cases(gen), d)
@@ -1252,6 +1318,7 @@ def check(run):
         return
     model, exes = st
     sim = exes["c12sim"]
+    footprint_oracle(run, model, derived, rich)
     if getattr(run, "broken_theorems", []) and derived:
         # name the first probe whose derived footprints differ from the model's table (python re-check of the same comparison)
         for c, t, flags, comp, coll, bias in derived:
@@ -1316,6 +1383,11 @@ def replay(path):
         b = V.run_lines(sim, lcase_scenario(c, None, "B"), cwd=d, env=envs(1))[1]
         print("smp %s, OMP_NUM_THREADS=%s vs serial single thread; first difference:" % (rp["mode"], rp["threads"]), first_diff(strip_items(a), strip_items(b)))
         print("---- scenario (run with OMP_NUM_THREADS=%s):\n" % rp["threads"] + "\n".join(lcase_scenario(c, rp["mode"], "A")))
+    elif rp.get("kind") == "footprint":
+        for f in ("P.registry.txt",):
+            open(os.path.join(d, f), "w").close()
+        print("\n".join(l for l in V.run_lines(sim, rp["scenario"], cwd=d)[1] if l.startswith("FP") or l.startswith("CONFIG")))
+        print("---- scenario:\n" + "\n".join(rp["scenario"]))
     elif rp.get("kind") == "opes":
         print("build the library with -DOPES_THREADING, run with OMP_NUM_THREADS=%s:\n" % rp["threads"] + "\n".join(rp["scenario"][:40]) + "\n...")
     elif rp.get("kind") == "errbits":
